@@ -57,6 +57,8 @@ MUTANTS = [
   "\t\tif prev := ps[i-1]; strings.HasSuffix(prev, `\\`) {\n\t\t\tres[len(res)-1] = strings.TrimSuffix(prev, `\\`) + delimiter + ps[i]"),
  ("M25 seeded C14-f ElementSetter: drops empty sequences too", "kyaml/yaml/fns.go",
   "\t\tif IsMissingOrNull(newNode) || IsEmptyMap(newNode) {\n\t\t\tcontinue\n\t\t}", "\t\tif newNode.IsNilOrEmpty() {\n\t\t\tcontinue\n\t\t}"),
+ ("M26 seeded C14-g FieldSetter: returns the caller's value node instead of the field in the document", "kyaml/yaml/fns.go",
+  "\t\tfield.SetYNode(s.Value.YNode())\n\t\treturn field, nil", "\t\tfield.SetYNode(s.Value.YNode())\n\t\treturn s.Value, nil"),
  ("M15 getFilter: '-' treated as index 0", "kyaml/yaml/fns.go",
   "\t\treturn GetElementByIndex(-1), nil", "\t\treturn GetElementByIndex(0), nil"),
 ]
